@@ -43,72 +43,6 @@ def bad (α : Type) [Inhabited α] : α × ASt := (default, { evs := [], miss :=
 
 def chartOf (cid : Int) : Option Chart := if cid < 0 then none else some (cid, #[])
 
-def atlasOracle (n : Nat) : AtlasOracle ASt Vec Vec Chart Float where
-  isSat s x :=
-    match s.evs with
-    | .S x' b :: r => (b, { evs := r, miss := s.miss || !vecEq x x' })
-    | _ => (false, { evs := [], miss := true })
-  valid s x :=
-    match s.evs with
-    | .V x' b :: r => (b, { evs := r, miss := s.miss || !vecEq x x' })
-    | _ => (false, { evs := [], miss := true })
-  getChart s x force :=
-    match s.evs with
-    | .GC x' f cid cr :: r => ((chartOf cid, cr), { evs := r, miss := s.miss || !vecEq x x' || f != force })
-    | _ => ((none, false), { evs := [], miss := true })
-  psiInv s c x :=
-    match s.evs with
-    | .PI cid x' u :: r => (u, { evs := r, miss := s.miss || !vecEq x x' || cid != c.1 })
-    | _ => (#[], { evs := [], miss := true })
-  psi s c u :=
-    match s.evs with
-    | .PSI cid u' b x :: r => ((b, x), { evs := r, miss := s.miss || !vecEq u u' || cid != c.1 })
-    | _ => ((false, Array.replicate n nan), { evs := [], miss := true })
-  phi s c u :=
-    match s.evs with
-    | .PHI cid u' x :: r => (x, { evs := r, miss := s.miss || !vecEq u u' || cid != c.1 })
-    | _ => (Array.replicate n nan, { evs := [], miss := true })
-  inPoly s c u :=
-    match s.evs with
-    | .IP cid u' b :: r => (b, { evs := r, miss := s.miss || !vecEq u u' || cid != c.1 })
-    | _ => (false, { evs := [], miss := true })
-  conDist s x :=
-    match s.evs with
-    | .CD x' d :: r => (d, { evs := r, miss := s.miss || !vecEq x x' })
-    | _ => (nan, { evs := [], miss := true })
-  advance s uj _ _ :=
-    match s.evs with
-    | .PSI _ u _ _ :: _ => (u, s)
-    | .PHI _ u _ :: _ => (u, s)
-    | _ => (uj, { s with miss := true })
-  uClose s _ _ :=
-    match s.evs with
-    | .IP .. :: _ => (false, s)
-    | .PHI .. :: _ => (false, s)
-    | _ => (true, s)
-  sampleChart s :=
-    match s.evs with
-    | .SC cid o :: r => ((cid, o), { evs := r, miss := s.miss })
-    | _ => ((-1, #[]), { evs := [], miss := true })
-  drawBall s :=
-    match s.evs with
-    | .IP _ u _ :: _ => (u, s)
-    | .PSI _ u _ _ :: _ => (u, s)
-    | _ => (#[], s)
-  drawNear s _ _ :=
-    match s.evs with
-    | .PSI _ u _ _ :: _ => (u, s)
-    | _ => (#[], s)
-  owning s x :=
-    match s.evs with
-    | .OC x' cid :: r => (chartOf cid, { evs := r, miss := s.miss || !vecEq x x' })
-    | _ => (none, { evs := [], miss := true })
-  border s c _ :=
-    match s.evs with
-    | .BC cid :: r => { evs := r, miss := s.miss || cid != c.1 }
-    | _ => { evs := [], miss := true }
-  origin c := c.2
-
 /-- Eigen's `redux` of a sum over a dynamic-size expression (SSE2 packets of 2 doubles, two packet
 accumulators, `alignedStart = 0` for the coefficient-wise product / `abs2` expressions that `dot`
 and `squaredNorm` reduce): the order in which `v.dot(u)` adds its terms. -/
@@ -148,6 +82,87 @@ def vecOpsF : VecOps Float Vec where
 
 def chartArithF : ChartArith Float :=
   { arithF with sqrt := Float.sqrt, neg := fun x => -x, c105 := 1.05, half := 0.5, twentieth := 1.0 / 20, two := 2.0 }
+
+/-- `u_j += s * (u_b - u_j).normalized()` as Eigen evaluates it: `n = u_b - u_j`, `z = n.squaredNorm()`,
+`n / sqrt(z)` (or `n` itself when `z` is not positive), then `u_j[i] + s * n[i]`. -/
+def advanceF (uj ub : Vec) (s : Float) : Vec :=
+  let nv := (Array.range uj.size).map (fun i => ub[i]! - uj[i]!)
+  let z := vecOpsF.dot nv nv
+  let nrm := if z > 0 then nv.map (fun x => x / Float.sqrt z) else nv
+  (Array.range uj.size).map (fun i => uj[i]! + s * nrm[i]!)
+
+/-- `(u_b - u_j).squaredNorm() <= delta_ * delta_` -/
+def uCloseF (ub uj : Vec) (delta : Float) : Bool :=
+  let nv := (Array.range uj.size).map (fun i => ub[i]! - uj[i]!)
+  decide (vecOpsF.dot nv nv ≤ delta * delta)
+
+def atlasOracle (n : Nat) (delta : Float) : AtlasOracle ASt Vec Vec Chart Float where
+  isSat s x :=
+    match s.evs with
+    | .S x' b :: r => (b, { evs := r, miss := s.miss || !vecEq x x' })
+    | _ => (false, { evs := [], miss := true })
+  valid s x :=
+    match s.evs with
+    | .V x' b :: r => (b, { evs := r, miss := s.miss || !vecEq x x' })
+    | _ => (false, { evs := [], miss := true })
+  getChart s x force :=
+    match s.evs with
+    | .GC x' f cid cr :: r => ((chartOf cid, cr), { evs := r, miss := s.miss || !vecEq x x' || f != force })
+    | _ => ((none, false), { evs := [], miss := true })
+  psiInv s c x :=
+    match s.evs with
+    | .PI cid x' u :: r => (u, { evs := r, miss := s.miss || !vecEq x x' || cid != c.1 })
+    | _ => (#[], { evs := [], miss := true })
+  psi s c u :=
+    match s.evs with
+    | .PSI cid u' b x :: r => ((b, x), { evs := r, miss := s.miss || !vecEq u u' || cid != c.1 })
+    | _ => ((false, Array.replicate n nan), { evs := [], miss := true })
+  phi s c u :=
+    match s.evs with
+    | .PHI cid u' x :: r => (x, { evs := r, miss := s.miss || !vecEq u u' || cid != c.1 })
+    | _ => (Array.replicate n nan, { evs := [], miss := true })
+  inPoly s c u :=
+    match s.evs with
+    | .IP cid u' b :: r => (b, { evs := r, miss := s.miss || !vecEq u u' || cid != c.1 })
+    | _ => (false, { evs := [], miss := true })
+  conDist s x :=
+    match s.evs with
+    | .CD x' d :: r => (d, { evs := r, miss := s.miss || !vecEq x x' })
+    | _ => (nan, { evs := [], miss := true })
+  -- the two pieces of inline Eigen arithmetic: the answer is inferred from the trace (what the code did next) AND
+  -- recomputed here in Eigen's evaluation order; the two must agree bit for bit, else `miss`
+  advance s uj ub d :=
+    match s.evs with
+    | .PSI _ u _ _ :: _ => (u, { s with miss := s.miss || !vecEq u (advanceF uj ub d) })
+    | .PHI _ u _ :: _ => (u, { s with miss := s.miss || !vecEq u (advanceF uj ub d) })
+    | _ => (uj, { s with miss := true })
+  uClose s ub uj :=
+    match s.evs with
+    | .IP .. :: _ => (false, { s with miss := s.miss || uCloseF ub uj delta })
+    | .PHI .. :: _ => (false, { s with miss := s.miss || uCloseF ub uj delta })
+    | _ => (true, { s with miss := s.miss || !uCloseF ub uj delta })
+  sampleChart s :=
+    match s.evs with
+    | .SC cid o :: r => ((cid, o), { evs := r, miss := s.miss })
+    | _ => ((-1, #[]), { evs := [], miss := true })
+  drawBall s :=
+    match s.evs with
+    | .IP _ u _ :: _ => (u, s)
+    | .PSI _ u _ _ :: _ => (u, s)
+    | _ => (#[], s)
+  drawNear s _ _ :=
+    match s.evs with
+    | .PSI _ u _ _ :: _ => (u, s)
+    | _ => (#[], s)
+  owning s x :=
+    match s.evs with
+    | .OC x' cid :: r => (chartOf cid, { evs := r, miss := s.miss || !vecEq x x' })
+    | _ => (none, { evs := [], miss := true })
+  border s c _ :=
+    match s.evs with
+    | .BC cid :: r => { evs := r, miss := s.miss || cid != c.1 }
+    | _ => { evs := [], miss := true }
+  origin c := c.2
 
 structure StA where
   base : St
@@ -241,7 +256,7 @@ def stepA (st : StA) (ts : List String) : StA × String :=
   let A := arithF
   let Am := ambF st.base.lo st.base.hi
   let n := st.base.n
-  let O := atlasOracle n
+  let O := atlasOracle n st.AP.delta
   let r : Option String :=
     match ts with
     | "ageo" :: i :: rest => do
@@ -332,6 +347,17 @@ def stepA (st : StA) (ts : List String) : StA × String :=
         pure ({ st with M := M }, s!"x={changed.length} nh={((M.chart? cid).map (·.polytope.length)).getD 0} " ++ out)
       | [] => none
     | _ => none
+  -- ConstrainedStateSpace::setDelta / setLambda mid-script: read at call time by every traversal that follows
+  let setOp : Option (StA × String) :=
+    match ts with
+    | ["setdelta", d] => (parseFloatBits? d).map (fun d =>
+        ({ st with base := { st.base with P := { st.base.P with delta := d } }, AP := { st.AP with delta := d } }, "ok"))
+    | ["setlambda", l] => (parseFloatBits? l).map (fun l =>
+        ({ st with base := { st.base with P := { st.base.P with lambda := l } }, AP := { st.AP with lambda := l } }, "ok"))
+    | _ => none
+  match setOp with
+  | some r => r
+  | none =>
   match chartOp with
   | some r => r
   | none =>
